@@ -6,6 +6,7 @@ package evalfilter
 // the same program prepared with and without NoOptimize.
 
 import (
+	"strings"
 	"github.com/skx/evalfilter/v2/ast"
 	"github.com/skx/evalfilter/v2/lexer"
 	"github.com/skx/evalfilter/v2/object"
@@ -21,6 +22,7 @@ func init() {
 	zzsv.Register("ZZ_C03_MixedOperands", ZZ_C03_MixedOperands)
 	zzsv.Register("ZZ_C03_UnaryLiterals", ZZ_C03_UnaryLiterals)
 	zzsv.Register("ZZ_C03_TailJumps", ZZ_C03_TailJumps)
+	zzsv.Register("ZZ_C03_PowerLiterals", ZZ_C03_PowerLiterals)
 }
 
 // zzSameObj: two results of the implementation are the same value.
@@ -618,4 +620,42 @@ func zzTailProgram(sv *zzsv.T, g *zzGen) *zzProg {
 	}
 	g.need("x", func() zv { return zInt(0) })
 	return p
+}
+
+// ZZ_C03_PowerLiterals: `**`, `%`, `/` and `*` between integer literals
+// whose results leave the 64-bit range or hit the edge cases of the
+// machine's arithmetic (bases 2, 4, 6, 10, 16, -2; exponents up to 70;
+// 65534/65535): whatever the optimizer computes beforehand is what the
+// machine computes at run time.
+func ZZ_C03_PowerLiterals(sv *zzsv.T) {
+	bases := []string{"2", "4", "6", "10", "16", "3", "65535", "(0 - 2)", "0", "1"}
+	exps := []string{"64", "32", "16", "70", "63", "62", "2", "0", "1", "(0 - 1)"}
+	ops := []string{"**", "%", "/", "*"}
+	b := bases[sv.Choice("base", len(bases))]
+	x := exps[sv.Choice("exp", len(exps))]
+	op := ops[sv.Choice("op", len(ops))]
+	forms := []string{"return B OP E;", "if (B OP E == 0) { t(1); } return 7;", "function f() { return B OP E; } return f() + 0;", "return (B OP E) OP B;", "x = B OP E; t(x); return x > 0;"}
+	src := forms[sv.Choice("form", len(forms))]
+	src = strings.ReplaceAll(strings.ReplaceAll(strings.ReplaceAll(src, "OP", op), "B", b), "E", x)
+	sv.Note("script", src)
+	var tr1, tr2 []object.Object
+	mk := func(noopt bool, tr *[]object.Object) (*Eval, bool) {
+		e, err := zzPrepare(sv, src, nil, nil, noopt, tr)
+		return e, err == nil
+	}
+	e1, p1 := mk(false, &tr1)
+	e2, p2 := mk(true, &tr2)
+	sv.Assume(p2)
+	if !p1 {
+		_, r2 := e2.Execute(nil)
+		sv.Assert("C03.power.prepare_error_only_for_failing_script", r2 != nil)
+		return
+	}
+	for run := 0; run < 2; run++ {
+		tr1, tr2 = nil, nil
+		o1, r1 := e1.Execute(nil)
+		o2, r2 := e2.Execute(nil)
+		zzDescribe(sv, "opt", o1, r1)
+		zzCompareTwo(sv, "C03.power", e1, e2, o1, o2, r1, r2, tr1, tr2, []string{"x"})
+	}
 }
